@@ -91,7 +91,8 @@ def check_result(case):
             if str(root.parent) not in S | I:
                 problems.append(("root", {"root_table_not_read_by_script": str(root.parent), "column": names[0]}))
             elif isinstance(leaf.parent, Table) and str(root.parent) != str(leaf.parent) and (str(root.parent), str(leaf.parent)) not in reach:
-                problems.append(("connect", {"no_table_level_connection": [str(root.parent), str(leaf.parent)]}))
+                problems.append(("connect", {"no_table_level_connection": [str(root.parent), str(leaf.parent)],
+                                             "via": sorted({str(c.parent) for c in p[1:-1] if isinstance(c.parent, Table)})}))
     # combined graph rebuilt through the public assembler
     try:
         H = SQLLineageHolder.of(DummyMetaDataProvider(case.get("metadata") or {}), *holders)
@@ -155,7 +156,7 @@ def _involved_tables(d):
     for k in ("leaf_table_not_target_or_intermediate", "root_table_not_read_by_script", "owner"):
         if k in d:
             out.add(d[k])
-    for k in ("no_table_level_connection", "has_column_edges_from"):
+    for k in ("no_table_level_connection", "has_column_edges_from", "via"):
         out |= set(d.get(k) or [])
     if "column" in d and "owner" not in d:
         pass
